@@ -485,7 +485,6 @@ harnesses! {
     c16_dir_nooverlap { prop: C16, feat: "c16", tier: quick, mode: full, unwind: 4, caps: "run=1,clone=1,drop=1" } => |s| c16::dir_parse(s, 35, 36);
     c16_dir_pragma { prop: C16, feat: "c16", tier: quick, mode: full, unwind: 4, caps: "run=1,clone=1,drop=1" } => |s| c16::dir_parse(s, 36, 37);
     c16_dir_custom { prop: C16, feat: "c16", tier: quick, mode: full, unwind: 4, caps: "run=1,clone=1,drop=1" } => |s| c16::dir_parse(s, 37, 38);
-    c16_equ_cycle { prop: C16, feat: "c16", tier: quick, mode: full, unwind: 4, caps: "run=3,clone=1,drop=2" } => |s| c16::equ_cycle(s);
     c06_data1_k { prop: C06, feat: "c06", tier: quick, mode: leaf, unwind: 18, caps: "drop=1" } => |s| c06::data_w(s, 1, 0);
     c06_data1_symb { prop: C06, feat: "c06", tier: quick, mode: leaf, unwind: 18, caps: "drop=1" } => |s| c06::data_w(s, 1, 1);
     c06_data1_symu { prop: C06, feat: "c06", tier: quick, mode: leaf, unwind: 18, caps: "drop=1" } => |s| c06::data_w(s, 1, 2);
@@ -543,4 +542,20 @@ harnesses! {
     c07_hex_42_50 { prop: C07, feat: "c07", tier: thorough, mode: hex, unwind: 18, caps: "" } => |s| c07::hex_small(s, 42, 50);
     c07_hex_50_58 { prop: C07, feat: "c07", tier: thorough, mode: hex, unwind: 18, caps: "" } => |s| c07::hex_small(s, 50, 58);
     c07_hex_58_65 { prop: C07, feat: "c07", tier: thorough, mode: hex, unwind: 18, caps: "" } => |s| c07::hex_small(s, 58, 65);
+    c16_equ_self { prop: C16, feat: "c16", tier: thorough, mode: full, unwind: 4, caps: "run=140,clone=1,drop=2" } => |s| c16::equ_cycle_one(s, 3);
+    c16_equ_mutual { prop: C16, feat: "c16", tier: thorough, mode: full, unwind: 4, caps: "run=140,clone=1,drop=2" } => |s| c16::equ_cycle_one(s, 7);
+    c16_equ_tail { prop: C16, feat: "c16", tier: thorough, mode: full, unwind: 4, caps: "run=140,clone=1,drop=2" } => |s| c16::equ_cycle_one(s, 8);
+    c16_equ_chain { prop: C16, feat: "c16", tier: quick, mode: full, unwind: 4, caps: "run=140,clone=1,drop=2" } => |s| c16::equ_cycle_one(s, 6);
+    // ---- C02 (per-item agreement lemmas): L1 emitted length == info().len == ISA length; L2 data length
+    c02_l1_lds { prop: C02, feat: "c02", tier: quick, mode: leaf, unwind: 3, caps: "drop=1" } => |s| insn::c01_enc(s, 11, 57, 58, false);
+    c02_l1_sts { prop: C02, feat: "c02", tier: quick, mode: leaf, unwind: 3, caps: "drop=1" } => |s| insn::c01_enc(s, 12, 58, 59, false);
+    c02_l1_long { prop: C02, feat: "c02", tier: quick, mode: leaf, unwind: 3, caps: "drop=1" } => |s| insn::c01_enc(s, 6, 44, 46, false);
+    c02_l1_rr { prop: C02, feat: "c02", tier: quick, mode: leaf, unwind: 3, caps: "drop=1" } => |s| insn::c01_enc(s, 0, 0, 6, false);
+    c02_l1_lpm { prop: C02, feat: "c02", tier: quick, mode: leaf, unwind: 3, caps: "drop=1" } => |s| insn::c01_enc(s, 17, 63, 65, false);
+    c02_l1_fixed { prop: C02, feat: "c02", tier: quick, mode: leaf, unwind: 3, caps: "drop=1" } => |s| insn::c01_enc(s, 21, 67, 78, false);
+    c02_l2_db_k { prop: C02, feat: "c02", tier: quick, mode: leaf, unwind: 18, caps: "drop=1" } => |s| c06::data_w(s, 1, 0);
+    c02_l2_db_str { prop: C02, feat: "c02", tier: quick, mode: leaf, unwind: 18, caps: "drop=1" } => |s| c06::data_w(s, 1, 5);
+    c02_l2_dw { prop: C02, feat: "c02", tier: quick, mode: leaf, unwind: 18, caps: "drop=1" } => |s| c06::data_w(s, 2, 0);
+    c02_l2_dd { prop: C02, feat: "c02", tier: thorough, mode: leaf, unwind: 18, caps: "drop=1" } => |s| c06::data_w(s, 4, 0);
+    c02_l2_dq { prop: C02, feat: "c02", tier: thorough, mode: leaf, unwind: 18, caps: "drop=1" } => |s| c06::data_w(s, 8, 0);
 }
